@@ -48,6 +48,7 @@ func plan(tier string, seed int64) []sup.Batch {
 	bs = append(bs, sup.Chunk("flat", "flat", nFlat, (nFlat+3)/4, 1, nil)...)
 	bs = append(bs, sup.Chunk("jread", "jread", nRead, (nRead+7)/8, 1, nil)...)
 	bs = append(bs, sup.Chunk("cfg", "cfg", nCfg, nCfg, 1, nil)...)
+	bs = append(bs, sup.Chunk("wjson", "wjson", nCfg*2, nCfg*2, 1, nil)...)
 	nexh := exhValueCount(exhLen) + exhPairCount()
 	bs = append(bs, sup.Chunk("jexh", "jexh", nexh, (nexh+3)/4, 1, map[string]any{"len": exhLen})...)
 	bs = append(bs, sup.Chunk("jrt", "jrt", nRT, (nRT+7)/8, 1, nil)...)
@@ -531,6 +532,7 @@ func main() {
 			"cfg: ReadJSON+flatten+rebuild vs encoding/json; jexh/jrt: both writers – json.Valid, decodes to the reference nested map, reads back to the same flat map; " +
 			"load: fsi18loader.Load on random directory layouts (memfs/diskfs, 1…300 json files and, one layout in forty, more files than the file loop's channels hold (1001…1600), ignored files, nil/real scope, GOMAXPROCS 1/2/4/16, pool size 1…NumCPU, yields/sleeps inside ReadDir/ReadFile, concurrent Translate callers, single injected read failures) – Load()==nil implies every key translates to its value; " +
 			"storm: 100 repeated loads of one 1…4-file layout with pool size 1 or 2 at GOMAXPROCS 2/4 (producer, consumer and completion signal meet within microseconds). " +
+			"wjson: flat string maps and nested maps of string leaves (control characters, <, >, &, texts that look like escapes) through filesystem/json.WriteJSON and back through ReadJSON (+ flatten): the same map. " +
 			"distinct = distinct documents/maps/layouts; non-trivial = at least one leaf / two files",
 		Assumptions: []string{
 			"object keys are dot-free and non-empty (a dotted or empty key has no unambiguous flat name)",
@@ -548,6 +550,8 @@ func main() {
 				runRead(c, b)
 			case b.Kind == "cfg":
 				runCfg(c, b)
+			case b.Kind == "wjson":
+				runWJSON(c, b)
 			case b.Kind == "jexh":
 				runExh(c, b)
 			case b.Kind == "jrt":
